@@ -546,7 +546,18 @@ func runC06(c *Ctx) error {
 		"(5) class streams through Engine.Load + the loader model + the soundness oracle: comparisons between two variables (every operator, Line/Text/Type.Size/Value.Int) x Match/MatchComment "+
 		"alternatives binding different subsets x At(); group-local helpers over named string constants (package-level, function-local, typed, concatenated) at every string position, nested; "+
 		"type strings with interface types of every element count and kind at any depth at every type position (also in the IR stream). "+
+		"(6) function stream (child processes: a fatal error is a verdict): rules files around generated custom filter / Do functions — bodies inside the subset the byte code compiler accepts, such bodies with one "+
+		"expression or statement of every kind outside it (one file per production: every go/ast statement and expression kind, every builtin, constants of every kind, values of every type class), "+
+		"declarations of every shape (parameter / result / local / variadic types, generic functions, methods, names), bodies over the whole grammar, the encoding limits (constants, locals, parameters, "+
+		"variadic arguments, 16-bit jumps, nesting), the ways a rule refers to a function, functions over strings / strconv / fmt and other imports — each through Engine.Load twice and, converted by the real irconv, "+
+		"through LoadFromIR (twice; in the quick tier twice for every fourth file): success or an error that names rules.go and a line, no panic, no fatal error, the same verdict both times; "+
+		"(7) argument stream: Type.Implements / Type.HasMethod argument strings built from parts, rule statements aimed at the converter's index / key / receiver branches, dsl.ImportRules of bundles that load, "+
+		"do not convert, do not load, nest or collide (in IR form also bundles that are not there and custom declarations of any text), and the load settings LoadContext.DebugFunc / DebugImports, whose verdict "+
+		"must be the verdict without them. "+
 		"Non-trivial IR: a where clause with >= 2 nodes; distinct by serialised value", nIR, nSrc)
+	if only := os.Getenv("VERIF_C06_ONLY"); only != "" { // debugging aid: one of the child-process streams alone
+		return c06LoadStreams(c, only)
+	}
 	rng := hx.Rng(c.Seed, "c06")
 	orc := &c06Oracles{probeCache: map[string]int{}}
 	var ops, impl, unsoundOps []string
@@ -624,7 +635,38 @@ func runC06(c *Ctx) error {
 	if err := c06Groups(c); err != nil {
 		return err
 	}
-	return c06Classes(c)
+	if err := c06Classes(c); err != nil {
+		return err
+	}
+	return c06LoadStreams(c, "")
+}
+
+// c06LoadStreams: the function stream and the argument stream, through one pool of child processes
+func c06LoadStreams(c *Ctx, only string) error {
+	var fc []*c06fCase
+	var ac []*c06aCase
+	if only != "args" {
+		fc = c06FuncCases(c)
+	}
+	if only != "fn" {
+		ac = c06ArgCases(c)
+	}
+	var jobs []*c06xJob
+	for _, cs := range fc {
+		jobs = append(jobs, cs.job)
+	}
+	for _, cs := range ac {
+		jobs = append(jobs, cs.job)
+	}
+	if !c.Thorough {
+		for i, j := range jobs {
+			j.IROnce = i%4 != 0
+		}
+	}
+	outs := c06xRun(jobs)
+	c06FuncJudge(c, fc, outs[:len(fc)])
+	c06ArgsJudge(c, ac, outs[len(fc):])
+	return nil
 }
 
 // c06Convert runs the real front half (parse, type-check, irconv) on a rules source.
